@@ -190,8 +190,13 @@ def soft_threshold(f, tval):
     '''
 
     f = f * (np.abs(f) > tval)
-    f -= tval * (f > tval)
-    f += tval * (f < -tval)
+    step = tval
+    if f.dtype.kind in 'iu' and tval == int(tval):
+        # keep the products in f's dtype: an int64 product cannot be
+        # subtracted in place from an unsigned or narrower integer array
+        step = f.dtype.type(tval)
+    f -= step * (f > tval)
+    f += step * (f < -tval)
     return f
 
 def bernsen(f, radius, contrast_threshold, gthresh=None):
